@@ -150,8 +150,19 @@ def run(rep, tier, seed):
         # (2) unparse
         semf = [(x.id, x.value) for x in sem.parse(buf).fields]
         want = fields_obs([(x.id, x.value) for x in syn.parse(buf).fields])
+        semf_before = list(semf)
         o2 = with_timeout(lambda: fields_obs(sem.unparse(semf)))
         fails = []
+        if semf != semf_before or len(semf) != len(semf_before):
+            fails.append('unparse changed the field list it was given (%d entries before, %d after)' % (len(semf_before), len(semf)))
+        o2b = with_timeout(lambda: fields_obs(sem.unparse(semf_before)))
+        if o2b != o2:
+            fails.append('un-parsing the same parsed fields a second time gives %s instead of %s' % (str(o2b)[:100], str(o2)[:100]))
+        # field ids as a context loaded from JSON carries them: plain strings equal to the enum members
+        plain = [((str.__str__(i_) if isinstance(i_, str) else i_), v) for i_, v in semf_before]
+        o2c = with_timeout(lambda: fields_obs(sem.unparse(plain)))
+        if o2c != o2:
+            fails.append('un-parsing with plain-string field ids (as loaded from JSON) gives %s instead of %s' % (str(o2c)[:100], str(o2)[:100]))
         if o2 != ('OK', want):
             got = o2[1] if o2[0] == 'OK' else o2[1]
             fails.append('unparse of the semantic fields gives %s, the syntactic parse gives %s (options %s)' % (str(got)[:150], str(want)[:150], opts))
